@@ -681,9 +681,9 @@ def deserialize_problem(combinator: Combinator[T], serialized: str, **kwargs: An
     tmp = combinator.deserialize(env, serialized, 0)
     if tmp is None:
         return None
-    assert tmp is not None
     problem = tmp[1]
-    assert len(problem) == 1
+    if len(problem) != 1:
+        raise ValueError("combinator must yield exactly one value for a problem")
     return problem[0]
 
 
@@ -738,9 +738,10 @@ def deserialize_problem_as_url(
     return_size: bool = False,
 ) -> Optional[Union[T, Tuple[int, int, T]]]:
     m = _DESERIALIZE_URL_REG.match(url)
-    if allow_failure and m is None:
-        return None
-    assert m is not None
+    if m is None:
+        if allow_failure:
+            return None
+        raise ValueError("not a puzzle URL")
 
     puzzle = m[1]
     width = int(m[2])
